@@ -34,6 +34,9 @@ type Cfg struct {
 	// looked up. ForeignFirst: declared before the concurrency quotas.
 	Foreign      int  `json:"rate_quotas,omitempty"`
 	ForeignFirst bool `json:"rate_quotas_declared_first,omitempty"`
+	// Filters: the DECLARED filter of every concurrency quota beyond its host
+	// (nil: every filter is "<host>/*" alone). See filters.go.
+	Filters []QFilter `json:"filters,omitempty"`
 }
 
 // foreign tells whether quota index q is a rate (fixed-window) quota.
@@ -104,7 +107,7 @@ func (k *Cfg) yamlFiles() map[string]string {
 		}
 		for i, r := range k.Rows {
 			if r.Parent < 0 {
-				fmt.Fprintf(&sb, "  - id: %s\n    filter:\n      url: \"%s/*\"\n", qid(i), k.host(i))
+				fmt.Fprintf(&sb, "  - id: %s\n%s", qid(i), k.filterYAML(i, "    "))
 				sb.WriteString(strategyYAML(r, "    "))
 			}
 		}
@@ -120,7 +123,7 @@ func (k *Cfg) yamlFiles() map[string]string {
 				sb.WriteString("internal_limits:\n")
 				first = false
 			}
-			fmt.Fprintf(&sb, "  - id: %s\n    parent_id: %s\n", qid(j), qid(ch.Parent))
+			fmt.Fprintf(&sb, "  - id: %s\n    parent_id: %s\n%s", qid(j), qid(ch.Parent), k.childFilterYAML(j, "    "))
 			sb.WriteString(strategyYAML(ch, "    "))
 		}
 		files["q.yaml"] = sb.String()
@@ -132,7 +135,7 @@ func (k *Cfg) yamlFiles() map[string]string {
 		}
 		var sb strings.Builder
 		sb.WriteString("quotas:\n")
-		fmt.Fprintf(&sb, "  - id: %s\n    filter:\n      url: \"%s/*\"\n", qid(i), k.host(i))
+		fmt.Fprintf(&sb, "  - id: %s\n%s", qid(i), k.filterYAML(i, "    "))
 		sb.WriteString(strategyYAML(r, "    "))
 		first := true
 		for j, ch := range k.Rows {
@@ -143,7 +146,7 @@ func (k *Cfg) yamlFiles() map[string]string {
 				sb.WriteString("internal_limits:\n")
 				first = false
 			}
-			fmt.Fprintf(&sb, "  - id: %s\n    parent_id: %s\n", qid(j), qid(ch.Parent))
+			fmt.Fprintf(&sb, "  - id: %s\n    parent_id: %s\n%s", qid(j), qid(ch.Parent), k.childFilterYAML(j, "    "))
 			sb.WriteString(strategyYAML(ch, "    "))
 		}
 		files[qid(i)+".yaml"] = sb.String()
